@@ -29,6 +29,7 @@ from gpytorch.mlls.added_loss_term import AddedLossTerm
 from gpytorch.priors import GammaPrior, LogNormalPrior
 
 from gpmc import util
+from gpmc.refs import dense
 from gpmc.refs import priors as RP
 from gpmc.refs import variational as RV
 from gpmc.util import Fails, F64
@@ -78,6 +79,9 @@ def cells(tier, seed):
     for mt, obj, sub in itertools.product(["IndepMT", "LMC"], ["ELBO", "PLL"], subsets if tier == "thorough" else subsets[::3]):
         out.append({"what": "objective-mt", "strategy": mt, "lik": "MultitaskGaussian", "dist": "Cholesky", "objective": obj, "subset": sub,
                     "q": "generic"})
+        # task noise with off-diagonal entries (rank-1 factor): R = F F^T + diag(task noises) + sigma^2 I couples the tasks of a point
+        out.append({"what": "objective-mt", "strategy": mt, "lik": "MultitaskGaussian", "dist": "Cholesky", "objective": obj, "subset": sub,
+                    "q": "generic", "rank": 1})
     for strat in ("Variational", "Unwhitened"):
         for bs in ([2], [3], [2, 2]):
             out.append({"what": "ngd-batch", "strategy": strat, "lik": "Gaussian", "dist": "Natural", "objective": "ELBO", "bs": bs, "q": "generic"})
@@ -177,12 +181,17 @@ def run_objective_mt(cell, seed, fails, notes):
             return gpytorch.distributions.MultivariateNormal(self.mean_module(x), self.covar_module(x))
 
     model = MT_()
-    lik = gpytorch.likelihoods.MultitaskGaussianLikelihood(num_tasks=t, rank=0)
+    rank = cell.get("rank", 0)
+    lik = gpytorch.likelihoods.MultitaskGaussianLikelihood(num_tasks=t, rank=rank)
+    if rank:
+        with torch.no_grad():
+            lik.task_noise_covar_factor.copy_(0.6 * util.randn(g, t, rank))
     with torch.no_grad():
         model.covar_module.base_kernel.lengthscale = 0.4 + util.rand(g, Q, 1, 1)
         model.covar_module.outputscale = 0.5 + util.rand(g, Q)
         model.mean_module.constant.copy_(0.3 * util.randn(g, Q))
-        lik.task_noises = 0.1 + util.rand(g, t)
+        if not rank:   # (with a rank-r factor the task noise is F F^T; there are no separate diagonal task noises to set)
+            lik.task_noises = 0.1 + util.rand(g, t)
         lik.noise = 0.05 + 0.2 * util.rand(g, 1)
         if cell["strategy"] == "LMC":
             model.variational_strategy.lmc_coefficients.copy_(util.randn(g, Q, t))
@@ -197,7 +206,15 @@ def run_objective_mt(cell, seed, fails, notes):
     Sq = Lq @ Lq.mT
     # whitened: KL(N(m, S) || N(0, I)) per latent, summed over the latents
     kl = 0.5 * (Sq.diagonal(dim1=-1, dim2=-2).sum(-1) + (mq ** 2).sum(-1) - M - torch.logdet(Sq)).sum()
-    s2 = (lik.task_noises + lik.noise).detach()   # per-task observation noise (rank 0: diagonal task noise + global noise)
+    if rank:
+        lik.noise = 0.05 + 0.2 * util.rand(g, 1)
+        # the t x t noise the likelihood adds at one point (what it adds is C12's subject; here it is only read off)
+        from gpytorch.distributions import MultitaskMultivariateNormal as MTMVN_
+        with torch.no_grad():
+            R = (lik(MTMVN_(torch.zeros(1, t, dtype=F64), torch.eye(t, dtype=F64))).covariance_matrix - torch.eye(t, dtype=F64)).detach()
+        s2 = R.diagonal().clone()
+    else:
+        s2 = (lik.task_noises + lik.noise).detach()   # per-task observation noise (rank 0: diagonal task noise + global noise)
     ops = 0
     cls = VariationalELBO if cell["objective"] == "ELBO" else PredictiveLogLikelihood
     for N, beta in itertools.product([N_DATA, 2 * N_DATA], [0.5, 1.0, 2.0]):
@@ -211,10 +228,30 @@ def run_objective_mt(cell, seed, fails, notes):
             terms = -0.5 * (math.log(2 * math.pi) + s2.log() + ((Y[idx] - mu) ** 2 + var) / s2)
         else:
             terms = -0.5 * (math.log(2 * math.pi) + (var + s2).log() + (Y[idx] - mu) ** 2 / (var + s2))
-        want = terms.sum() / len(idx) - beta / N * kl
+        diag_only = terms.sum() / len(idx) - beta / N * kl
+        if rank and cell["objective"] == "ELBO":
+            # (the predictive log likelihood treats every (point, task) output as one datum - the convention the rank-0 cells already use -
+            #  so only the ELBO, whose data term is the expectation of the JOINT conditional density of a point, needs the full R)
+            # per point i: q(f_i) = N(mu_i, C_i) over its t tasks, p(y_i | f_i) = N(f_i, R) with the FULL t x t noise R
+            nb = len(idx)
+            with torch.no_grad():
+                C4 = qf.covariance_matrix.reshape(nb, t, nb, t) if getattr(qf, "_interleaved", True) else \
+                    qf.covariance_matrix.reshape(t, nb, t, nb).permute(1, 0, 3, 2)
+            tot = torch.zeros((), dtype=F64)
+            for i in range(nb):
+                Ci, ri = C4[i, :, i, :], (Y[idx][i] - mu[i])
+                if cell["objective"] == "ELBO":
+                    tot = tot + dense.gauss_logpdf(Y[idx][i], mu[i], R) - 0.5 * torch.linalg.solve(R, Ci).diagonal().sum()
+                else:
+                    tot = tot + dense.gauss_logpdf(Y[idx][i], mu[i], Ci + R)
+            want = tot / nb - beta / N * kl
+        else:
+            want = diag_only
         ok, msg = util.close(got, want, 1e-9, 1e-9)
         if not ok:
             hint = ""
+            if rank and util.close(got, diag_only, 1e-9, 1e-9)[0]:
+                hint = " (= the value for diag(R): the off-diagonal task noise is dropped)"
             if util.close(got, terms.sum() / (len(idx) * t) - beta / N * kl, 1e-9, 1e-9)[0]:
                 hint = " (= data term divided by B * t instead of B)"
             fails.add("objective-mt", f"mismatch err={msg}{hint}", f"{cell['objective']} num_data={N} beta={beta} subset={idx.tolist()}: got "
@@ -372,7 +409,7 @@ class Setup:
 # ----------------------------------------------------------------------------------------------------------------------
 def run_cell(cell, seed):
     fails = Fails()
-    feats = {k: cell.get(k) for k in ("what", "strategy", "lik", "dist", "objective", "priors", "added", "subset", "jit", "q", "holds")}
+    feats = {k: cell.get(k) for k in ("what", "strategy", "lik", "dist", "objective", "priors", "added", "subset", "jit", "q", "holds", "rank")}
     if cell["what"] == "objective":
         feats["B"] = bin(cell["subset"]).count("1")
     util.own_rng(seed, "c15-lib|" + util.jdump(cell))
